@@ -188,6 +188,14 @@ class Ext(cpp2coq.Tr):
         k = c["k"]
         if k == "ref" and c["n"] == "nullopt" and "nullopt_t" in c["t"]:
             return [], "None", "nullopt"
+        if k == "op" and c["n"] in ("operator==", "operator!=") and len(c["a"]) == 2:
+            # o == std::nullopt is !o.has_value(), o != std::nullopt is o.has_value() (either order)
+            ks = [self.E(x, [st[0]], env) for x in c["a"]]
+            kinds = [x[2] for x in ks]
+            if sorted(kinds) == ["nullopt", "optmit"]:
+                b, t, _ = ks[kinds.index("optmit")]
+                tm = "(opt_has_value %s)" % t
+                return b, tm if c["n"] == "operator!=" else "(negb %s)" % tm, "bool"
         if k == "call" and c["n"] in ("begin", "end", "size") and len(c["a"]) == 1:
             b, t, kd = self.E(c["a"][0], st, env)
             if kd not in RANGES:
